@@ -582,7 +582,10 @@ def classify_key(line, impl, what):
         cls = "protocol"
     pat = w[2] if w[0] == "call" and len(w) > 2 else ""
     # which argument: the NULL / E / z positions of the pattern
-    return "capi:%s:%s:%s" % (fn, cls, pat if w[0] == "call" else " ".join(w[2:])[:80])
+    if w[0] == "call":
+        return "capi:%s:%s:%s" % (fn, cls, pat)
+    # one report per function and failure class for the hand-written cases (the replay holds the input)
+    return "capi:%s:%s" % (fn, cls)
 
 
 # ------------------------------------------------------------------ the check
@@ -604,10 +607,15 @@ def run(chk):
         "capacity 0..len+2 for every array/string-returning function. st/threads: random histories of failing / succeeding / reset / getmsg "
         "calls per thread judged by the specification of the protocol. Non-trivial = the call returned PRIMITIV_C_OK or an equivalence case "
         "reported `ok same`; distinct = distinct lines.")
+    import time
+    t0 = time.time()
     with build.Lock("capi-gen"):
-        st = capi.generate()
+        t1 = time.time()
+        st = capi.generate(lock=False)
         table = st["table"]
+        t2 = time.time()
         ob = chk.obligations(MODS, drivers=["capi"])
+    chk.extra_cov["wall_split_s"] = {"wait_gen_lock": round(t1 - t0, 1), "translate": round(t2 - t1, 1), "lean": round(time.time() - t2, 1)}
     byname = {w["name"]: w for w in table}
     chk.extra_cov["translator"] = {k: st[k] for k in ("wrappers", "declared", "params", "uses", "null_checks", "unsupported",
                                                       "unsupported_rows", "undefined", "same_as_golden", "sources")}
@@ -675,6 +683,7 @@ def run(chk):
                                 nontrivial=lambda line, out: out.startswith("ok msg") or out.startswith("ok ") or out == "err")
     dis += d3; judged += j3; crashes += c3
 
+    chk.extra_cov["wall_split_s"]["correspondence"] = round(time.time() - t2 - chk.extra_cov["wall_split_s"]["lean"], 1)
     # ---- decisions
     base = {"family": "capi", "harness": "h_capi", "variant": "asan"}
     jl = set()
@@ -783,7 +792,7 @@ def replay(path):
         print(json.dumps(rp, indent=1)[:3000])
         return 0
     with build.Lock("capi-gen"):
-        st = capi.generate()
+        st = capi.generate(lock=False)
         lean.lake(["build", "drv_capi"])
     exe = build.build_harness("h_capi", extra_flags=harness_flags(st))
     impl, reports = vrun.run_impl(exe, rp["lines"], stateful=rp.get("stateful", False))
